@@ -597,6 +597,8 @@ type Frame struct {
 	closures  map[ssa.Value]*ssa.MakeClosure // closure values by SSA value
 	closCells map[*ssa.Alloc]*ssa.MakeClosure  // locals holding a closure (f := func(){...})
 	ptrCells  map[*ssa.Alloc]Addr // locals that hold the address of a slice element / field (the p := &xs[i] idiom)
+	inCommute    bool
+	sortedUseBad bool
 	forcedKey    string // commutes check: the key the next map-range Next must yield
 	commute      bool
 	loopRangeIdx map[int]*ssa.Alloc
@@ -632,6 +634,9 @@ func funcKey0(fn *ssa.Function) string {
 
 func (fr *Frame) oblige(st *State, kind string, phi string, pos token.Pos) {
 	c := fr.ctx
+	if fr.inCommute && !strings.Contains(kind, ".commutes") {
+		return // the body was already checked in the main pass; the order-independence run only compares final states
+	}
 	var b strings.Builder
 	b.WriteString(prelude)
 	for _, d := range c.dtDecls {
@@ -1312,7 +1317,11 @@ func (fr *Frame) run(st0 *State) {
 			fr.namePC(st, fmt.Sprintf("loop%d", ord))
 			fr.loopHead[ord] = st.clone()
 			if fr.commute && fr.top {
-				fr.checkCommutes(b, ord, st, isBack)
+				if why, skip := fr.fc.NoCommute[ord]; skip {
+					c.note("%s: loop %d: order-independence not checked (%s)", fr.fname, ord, why)
+				} else {
+					fr.checkCommutes(b, ord, st, isBack)
+				}
 			}
 		}
 		// execute
@@ -1339,7 +1348,7 @@ func (fr *Frame) run(st0 *State) {
 					if d, ok := fr.fc.LoopDec[li.ord]; ok {
 						v := fr.evalExpr(d, &Env{fr: fr, st: s2, old: fr.entry, loopOrd: li.ord, binds: fr.ghost})
 						fr.oblige(s2, fmt.Sprintf("loop%d.variant@b%d", li.ord, b.Index), fmt.Sprintf("(and (< %s %s) (>= %s 0))", v.T, li.variant0, li.variant0), last.Pos())
-					} else if !hasNext(to) && !fr.fc.Auto {
+					} else if _, isSliceRange := fr.loopRangeIdx[li.ord]; !hasNext(to) && !fr.fc.Auto && !isSliceRange {
 						fr.oblige(s2, fmt.Sprintf("loop%d.variant.missing", li.ord), "false", last.Pos())
 					}
 				}
@@ -1428,6 +1437,17 @@ func (fr *Frame) allocatesIn(body map[*ssa.BasicBlock]bool, depth int) bool {
 		}
 	}
 	return false
+}
+
+func loopFree(fn *ssa.Function) bool {
+	for _, b := range fn.Blocks {
+		for _, s := range b.Succs {
+			if s.Dominates(b) {
+				return false
+			}
+		}
+	}
+	return true
 }
 
 func isLeaf(fn *ssa.Function) bool {
@@ -2058,6 +2078,20 @@ func (fr *Frame) step(st *State, in ssa.Instruction) bool {
 				return true
 			}
 		}
+		if _, ok := x.X.Type().Underlying().(*types.Slice); ok {
+			// s[lo:hi] of a slice: same backing array, shifted window (capacity is not modelled: hi is checked against len)
+			sv := fr.val(x.X)
+			lo, hi := "0", fmt.Sprintf("(sl.len %s)", sv.T)
+			if x.Low != nil {
+				lo = fr.val(x.Low).T
+			}
+			if x.High != nil {
+				hi = fr.val(x.High).T
+			}
+			fr.obligeAt(st, "safety.slice", "slice", fmt.Sprintf("(and (<= 0 %s) (<= %s %s) (<= %s (sl.len %s)))", lo, lo, hi, hi, sv.T), x.Pos())
+			fr.vals[x] = Val{fmt.Sprintf("(mk-slice (sl.arr %s) (+ (sl.off %s) %s) (- %s %s))", sv.T, sv.T, lo, hi, lo), x.Type()}
+			return true
+		}
 		fr.vals[x] = Val{c.fresh("slice", "U"), x.Type()}
 		return true
 	case *ssa.Extract:
@@ -2296,6 +2330,19 @@ func (fr *Frame) call(st *State, x *ssa.Call) bool {
 				setRes(Val{fmt.Sprintf("(slen %s)", a.T), x.Type()})
 			} else if c.sortOf(x.Call.Args[0].Type()) == "Slice" {
 				setRes(Val{fmt.Sprintf("(sl.len %s)", a.T), x.Type()})
+			} else if mt, ok := x.Call.Args[0].Type().Underlying().(*types.Map); ok {
+				// len(m) is the cardinality of the domain: an uninterpreted function of the domain set (0 iff empty)
+				ks := c.sortOf(mt.Key())
+				card := "mcard_" + sanitize(ks)
+				if !c.dts[card] {
+					c.dts[card] = true
+					c.dtDecls = append(c.dtDecls, fmt.Sprintf("(declare-fun %s ((Array %s Bool)) Int)", card, ks),
+						fmt.Sprintf("(assert (forall ((d (Array %s Bool))) (! (>= (%s d) 0) :pattern ((%s d)))))", ks, card, card),
+						fmt.Sprintf("(assert (forall ((d (Array %s Bool)) (k %s)) (! (=> (select d k) (> (%s d) 0)) :pattern ((select d k) (%s d)))))", ks, ks, card, card),
+						fmt.Sprintf("(assert (= (%s ((as const (Array %s Bool)) false)) 0))", card, ks))
+				}
+				_, _, dom, _ := c.mapHeaps(st, mt)
+				setRes(Val{fmt.Sprintf("(%s (select %s %s))", card, dom, a.T), x.Type()})
 			} else {
 				n := c.fresh("len", "Int")
 				c.defs = append(c.defs, fmt.Sprintf("(assert (>= %s 0))", n))
@@ -2467,6 +2514,24 @@ func (fr *Frame) call(st *State, x *ssa.Call) bool {
 	case "unicode/utf8.RuneLen":
 		setRes(Val{fmt.Sprintf("(runelen %s)", fr.val(x.Call.Args[0]).T), x.Type()})
 		return true
+	case "sort.Strings":
+		// in place: afterwards the slice holds sortedOf(its previous contents)
+		sv := fr.val(x.Call.Args[0])
+		sl := x.Call.Args[0].Type().Underlying().(*types.Slice)
+		st2 := &seqType{sl.Elem()}
+		before := fr.toSeq(sv, st2, &Env{fr: fr, st: st, old: st})
+		so := c.sortedOfFn(st2)
+		fr.obligeAt(st, "frame.write_elem", "call", fr.elemWritePerm(Addr{Ref: fmt.Sprintf("(sl.arr %s)", sv.T)}), x.Pos())
+		key, arr := c.elemHeap(st, sl.Elem())
+		es := c.sortOf(sl.Elem())
+		inner := c.fresh("sortedinner", fmt.Sprintf("(Array Int %s)", es))
+		c.n++
+		q := fmt.Sprintf("i_q%d", c.n)
+		fr.setElemHeap(st, key, sl.Elem(), arr, fmt.Sprintf("(store %s (sl.arr %s) %s)", arr, sv.T, inner), fmt.Sprintf("(sl.arr %s)", sv.T))
+		ef := c.eltFn(sl.Elem())
+		fr.assume(st, fmt.Sprintf("(forall ((%s Int)) (! (=> (and (<= 0 %s) (< %s (sl.len %s))) (= (%s %s %s %s) (sqat_%s (%s %s) %s))) :pattern ((%s %s %s %s))))",
+			q, q, q, sv.T, ef, st.heap[key], sv.T, q, c.sortOf(st2), so, before.T, q, ef, st.heap[key], sv.T, q))
+		return true
 	case "strconv.FormatUint", "strconv.Itoa", "strconv.FormatInt":
 		// decimal rendering is injective: modelled as an uninterpreted function with a left inverse
 		setRes(Val{fmt.Sprintf("(fmtint %s)", fr.val(x.Call.Args[0]).T), x.Type()})
@@ -2526,6 +2591,9 @@ func (fr *Frame) call(st *State, x *ssa.Call) bool {
 		return true
 	}
 	fc := c.cs.Funcs[key]
+	if fc != nil && !fc.Pure && !fc.Trusted && fr.inCommute && callee.Blocks != nil && loopFree(callee) && fr.depth < 4 {
+		fc = nil // order-independence runs execute loop-free callees exactly (a contract would give a fresh value per call)
+	}
 	if fc == nil || fc.Pure {
 		// transparent
 		rets := fr.inline(st, callee, args, x.Block())
@@ -2849,6 +2917,8 @@ func (fr *Frame) execBody(h *ssa.BasicBlock, body map[*ssa.BasicBlock]bool, st0 
 	incoming := map[*ssa.BasicBlock][]edge{h: {{nil, st0}}}
 	var backs []edge
 	fr.forcedKey = key
+	fr.inCommute = true
+	defer func() { fr.inCommute = false }()
 	okFlow := true
 	for _, b := range order {
 		ins := incoming[b]
@@ -2918,7 +2988,11 @@ func (fr *Frame) checkCommutes(h *ssa.BasicBlock, ord int, st *State, isBack fun
 	fr.assume(base, fmt.Sprintf("(and (select (select %s %s) %s) (select (select %s %s) %s) (not (= %s %s)))", dom, it.ref, k1, dom, it.ref, k2, k1, k2))
 	a1, ok := fr.execBody(h, body, base.clone(), k1, isBack)
 	if !ok {
-		c.note("%s: loop %d: body leaves the loop or has an inner loop; commutes not generated", fr.fname, ord)
+		// the body leaves the loop early or contains an inner loop: order independence cannot be decided by comparing
+		// two iterations; reported as an undischarged obligation (use "loop N nocommute <reason>" to opt out explicitly)
+		c.note("%s: loop %d: body leaves the loop or has an inner loop; order independence undecided", fr.fname, ord)
+		fr.inCommute = false
+		fr.oblige(base, fmt.Sprintf("loop%d.commutes", ord), "false", h.Instrs[0].Pos())
 		return
 	}
 	a12, ok := fr.execBody(h, body, a1, k2, isBack)
@@ -2934,13 +3008,40 @@ func (fr *Frame) checkCommutes(h *ssa.BasicBlock, ord int, st *State, isBack fun
 		return
 	}
 	var eqs []string
+	sortedVars := map[string]bool{}
+	if fr.fc != nil {
+		for _, v := range fr.fc.LoopSorted[ord] {
+			sortedVars[v] = true
+		}
+	}
+	baseAlloc := fr.allocTerm(base)
 	for k, v := range a12.cells {
 		if body[k.a.Block()] {
 			continue // per-iteration locals
 		}
-		if w, ok := b21.cells[k]; ok && w != v {
-			eqs = append(eqs, fmt.Sprintf("(= %s %s)", v, w))
+		w, ok := b21.cells[k]
+		if !ok || w == v {
+			continue
 		}
+		et := c.typeAtStr(k.a.Type().(*types.Pointer).Elem(), k.path)
+		if sl, isSl := et.Underlying().(*types.Slice); isSl {
+			st2 := &seqType{sl.Elem()}
+			qa := fr.toSeq(Val{v, et}, st2, &Env{fr: fr, st: a12, old: a12})
+			qb := fr.toSeq(Val{w, et}, st2, &Env{fr: fr, st: b21, old: b21})
+			if sortedVars[k.a.Comment] {
+				so := c.sortedOfFn(st2)
+				eqs = append(eqs, fmt.Sprintf("(= (%s %s) (%s %s))", so, qa.T, so, qb.T))
+				fr.requireSortedUse(h, body, k.a, ord)
+			} else {
+				// slices are compared as sequences (same length, same elements in the same order)
+				c.n++
+				q := fmt.Sprintf("i_q%d", c.n)
+				sn := c.sortOf(st2)
+				eqs = append(eqs, fmt.Sprintf("(and (= (sq.len %s) (sq.len %s)) (forall ((%s Int)) (=> (and (<= 0 %s) (< %s (sq.len %s))) (= (sqat_%s %s %s) (sqat_%s %s %s)))))", qa.T, qb.T, q, q, q, qa.T, sn, qa.T, q, sn, qb.T, q))
+			}
+			continue
+		}
+		eqs = append(eqs, fmt.Sprintf("(= %s %s)", v, w))
 	}
 	keys := map[string]bool{}
 	for k := range a12.heap {
@@ -2954,9 +3055,17 @@ func (fr *Frame) checkCommutes(h *ssa.BasicBlock, ord int, st *State, isBack fun
 			continue
 		}
 		v, w := c.heapGetSort(a12, k, c.heapSrt[k]), c.heapGetSort(b21, k, c.heapSrt[k])
-		if v != w {
-			eqs = append(eqs, fmt.Sprintf("(= %s %s)", v, w))
+		if v == w {
+			continue
 		}
+		if strings.HasPrefix(k, "E:") {
+			// backing arrays allocated by the two runs have different references: compare the arrays that existed before
+			c.n++
+			q := fmt.Sprintf("r_q%d", c.n)
+			eqs = append(eqs, fmt.Sprintf("(forall ((%s Int)) (=> (<= %s %s) (= (select %s %s) (select %s %s))))", q, q, baseAlloc, v, q, w, q))
+			continue
+		}
+		eqs = append(eqs, fmt.Sprintf("(= %s %s)", v, w))
 	}
 	sort.Strings(eqs)
 	goal := "true"
@@ -2965,7 +3074,82 @@ func (fr *Frame) checkCommutes(h *ssa.BasicBlock, ord int, st *State, isBack fun
 	}
 	both := base.clone()
 	both.pc = fmt.Sprintf("(and %s %s)", a12.pc, b21.pc)
+	if fr.sortedUseBad {
+		goal = "false"
+		fr.sortedUseBad = false
+	}
 	fr.oblige(both, fmt.Sprintf("loop%d.commutes", ord), goal, h.Instrs[0].Pos())
+}
+
+// sortedOfFn declares the spec function "the sorted rearrangement of a sequence" with the two facts the
+// order-independence obligations need: it depends only on the elements (extensionality) and it is invariant under
+// swapping the last two elements (adjacent transpositions of appends generate all orders).
+func (c *Ctx) sortedOfFn(st *seqType) string {
+	sn := c.sortOf(st)
+	name := "sortedOf_" + sn
+	if !c.dts[name] {
+		c.dts[name] = true
+		at := "sqat_" + sn
+		c.dtDecls = append(c.dtDecls, fmt.Sprintf("(declare-fun %s (%s) %s)", name, sn, sn),
+			fmt.Sprintf("(assert (forall ((q %s)) (! (= (sq.len (%s q)) (sq.len q)) :pattern ((%s q)))))", sn, name, name),
+			fmt.Sprintf("(assert (forall ((a %s) (b %s)) (! (=> (and (= (sq.len a) (sq.len b)) (forall ((i Int)) (=> (and (<= 0 i) (< i (sq.len a))) (= (%s a i) (%s b i))))) (= (%s a) (%s b))) :pattern ((%s a) (%s b)))))", sn, sn, at, at, name, name, name, name),
+			fmt.Sprintf("(assert (forall ((a %s) (b %s)) (! (=> (and (= (sq.len a) (sq.len b)) (>= (sq.len a) 2) (forall ((i Int)) (=> (and (<= 0 i) (< i (- (sq.len a) 2))) (= (%s a i) (%s b i)))) (= (%s a (- (sq.len a) 2)) (%s b (- (sq.len a) 1))) (= (%s a (- (sq.len a) 1)) (%s b (- (sq.len a) 2)))) (= (%s a) (%s b))) :pattern ((%s a) (%s b)))))", sn, sn, at, at, at, at, at, at, name, name, name, name))
+	}
+	return name
+}
+
+// requireSortedUse: a slice compared "up to sorting" must be sorted before anything else reads it: the first use of the
+// variable after the loop has to be the argument of sort.Strings / sort.Slice / slices.Sort.
+func (fr *Frame) requireSortedUse(h *ssa.BasicBlock, body map[*ssa.BasicBlock]bool, a *ssa.Alloc, ord int) {
+	ok := false
+	seenB := map[*ssa.BasicBlock]bool{}
+	var walk func(b *ssa.BasicBlock) bool
+	walk = func(b *ssa.BasicBlock) bool { // true: a use was found (and judged) on this path
+		if seenB[b] || body[b] {
+			return false
+		}
+		seenB[b] = true
+		for _, in := range b.Instrs {
+			if u, isU := in.(*ssa.UnOp); isU && u.X == ssa.Value(a) {
+				// the loaded value must feed a sort call only
+				refs := u.Referrers()
+				good := refs != nil && len(*refs) > 0
+				if good {
+					for _, r := range *refs {
+						call, isCall := r.(*ssa.Call)
+						if !isCall || call.Call.StaticCallee() == nil {
+							good = false
+							break
+						}
+						switch call.Call.StaticCallee().String() {
+						case "sort.Strings", "sort.Slice", "sort.SliceStable", "sort.Ints":
+						default:
+							if !strings.HasPrefix(call.Call.StaticCallee().String(), "slices.Sort") {
+								good = false
+							}
+						}
+					}
+				}
+				ok = good
+				return true
+			}
+		}
+		for _, s := range b.Succs {
+			if walk(s) {
+				return true
+			}
+		}
+		return false
+	}
+	for _, s := range h.Succs {
+		if !body[s] {
+			walk(s)
+		}
+	}
+	if !ok {
+		fr.ctx.note("%s: loop %d: variable %s is declared 'sorted' but its first use after the loop is not a sort call", fr.fname, ord, a.Comment)
+		fr.sortedUseBad = true
+	}
 }
 
 // inlineClosure executes a locally made closure (loop-free) on the caller's state; its free variables are the
